@@ -807,7 +807,15 @@ func eqnil(t types.Type, x, y value) bool {
 		case *closure:
 			return (x != nil) == (y.(*ssa.Function) != nil)
 		case []value:
+			if _, ok := y.(*symslice); ok {
+				return x != nil
+			}
 			return (x != nil) == (y.([]value) != nil)
+		case *symslice:
+			if ys, ok := y.([]value); ok {
+				return ys != nil
+			}
+			return true
 		}
 		panic(fmt.Sprintf("eqnil(%s): illegal dynamic type: %T", t, x))
 	}
